@@ -186,7 +186,10 @@ class History(object):
     def op_delete_atom(self):
         a = self._atom(absorbed_ok=True)
         hidden = [x for x in self.shx.atoms.all_atoms if find_entry(self.ents, x) is not None and self.ents[find_entry(self.ents, x)].absorbed]
-        if hidden and self.rng.random() < 0.5:
+        if hidden and getattr(self, 'force_last_hidden', False):
+            a = hidden[-1]
+            self.force_last_hidden = False
+        elif hidden and self.rng.random() < 0.8:
             a = hidden[-1] if self.rng.random() < 0.7 else self.rng.choice(hidden)     # the last line of an include file is the critical one
         if a is None or len(self.shx.atoms.all_atoms) < 2:
             return False
